@@ -3,14 +3,46 @@
 //! One poller thread calling `Ring::poll(None)` (no timeout: a lost wake-up blocks forever) and
 //! k waker threads calling `SubmissionQueue::wake`, run under the baton scheduler on the
 //! simulated kernel; the executed interleaving is replayed on Model/Wake.v.
+//!
+//! In a third of the cases some of the poller's `io_uring_enter` calls are interrupted by a signal
+//! (EINTR), chosen per poll from the case's stream: either *at the call* (the simulated kernel's
+//! `fail_next_enter`: the next enter with GETEVENTS does its submission work and then fails; the
+//! wakers' enters carry no GETEVENTS flag and never consume it) or *while blocked* (a block handler
+//! parks the poller at the extra scheduling point 997 instead of blocking it: the scheduler resumes
+//! it whenever it likes, which is the signal arriving, and the wait ends with EINTR unless a
+//! completion is there by then or the call had submitted something). The poller segment that made
+//! the failing call, resp. the 997 entry, is the event `PI` of the model instead of `P`.
 
 use std::fmt::Write as _;
+use std::sync::atomic::{AtomicBool, Ordering};
 use std::sync::{Arc, Mutex};
 
 use crate::out::{self, Case, Spec};
 use crate::rng::Rng;
-use crate::simk::{self, Ev};
+use crate::simk::{self, BlockAction, Ev};
 use crate::{sched, Args};
+
+/// What happens to the `io_uring_enter` of one `Ring::poll` call.
+#[derive(Clone, Copy, Debug, PartialEq)]
+enum Intr {
+    No,
+    /// The call fails with EINTR after its submission work.
+    AtEnter,
+    /// A signal arrives some time after the call blocked.
+    WhileBlocked,
+}
+
+/// One `Ring::poll` call of the poller thread, as the thread saw it.
+#[derive(Clone, Copy, Debug)]
+struct PollRec {
+    plan: Intr,
+    /// The armed interruption was used (a poll that finds completions does not enter the kernel; an
+    /// awoken poll does not block).
+    consumed: bool,
+    /// Execution-log range of the call.
+    start: usize,
+    end: usize,
+}
 
 pub fn one_case(r: &mut Rng, silent: &Arc<Mutex<Option<String>>>, debug: bool) -> Case {
     let n_wakers = r.range(1, 3) as usize;
@@ -23,6 +55,20 @@ pub fn one_case(r: &mut Rng, silent: &Arc<Mutex<Option<String>>>, debug: bool) -
     simk::configure(simk::SetupConfig { sq_start: r.next() as u32, cq_start: r.next() as u32, ..Default::default() });
     let cap: u32 = *r.pick(&[2, 2, 8]);
     let prefill: u32 = *r.pick(&[0, 0, cap - 1, cap, cap]);
+    // Interrupted enters: a third of the cases; per poll none / at the call / while blocked.
+    let intr_case = r.below(3) == 0;
+    let plan: Vec<Intr> = (0..polls)
+        .map(|_| {
+            if !intr_case {
+                return Intr::No;
+            }
+            match r.below(5) {
+                0 => Intr::No,
+                1 | 2 => Intr::AtEnter,
+                _ => Intr::WhileBlocked,
+            }
+        })
+        .collect();
     let cfg = a10::Ring::config().with_submission_queue_size(cap);
     let cfg = match mode {
         1 => cfg.single_issuer(),
@@ -45,12 +91,47 @@ pub fn one_case(r: &mut Rng, silent: &Arc<Mutex<Option<String>>>, debug: bool) -
     }
     let total_wakes: usize = wakes_each.iter().sum();
     let returned = Arc::new(Mutex::new(0usize));
+    let recs: Arc<Mutex<Vec<PollRec>>> = Arc::new(Mutex::new(Vec::new()));
+    // A signal is due for the poll in progress once it blocks.
+    let signal_due = Arc::new(AtomicBool::new(false));
+    {
+        let signal_due = signal_due.clone();
+        simk::set_block_handler(Some(Box::new(move |fd| {
+            if signal_due.swap(false, Ordering::SeqCst) {
+                // Not blocked as far as the scheduler is concerned: it resumes the poller whenever it
+                // likes (others may run first); being resumed from 997 is the signal arriving.
+                sched::yield_point(997);
+                BlockAction::Eintr
+            } else {
+                sched::default_block(fd, false)
+            }
+        })));
+    }
     let mut threads: Vec<Box<dyn FnOnce() + Send>> = Vec::new();
     {
         let returned = returned.clone();
+        let recs = recs.clone();
+        let signal_due = signal_due.clone();
+        let plan = plan.clone();
         threads.push(Box::new(move || {
-            for _ in 0..polls {
+            for k in 0..polls {
+                match plan[k] {
+                    Intr::No => {}
+                    Intr::AtEnter => {
+                        simk::with_fd(ring_fd, |s| s.fail_next_enter = Some((libc::EINTR, Vec::new())));
+                    }
+                    Intr::WhileBlocked => signal_due.store(true, Ordering::SeqCst),
+                }
+                let start = sched::exec_len();
                 let _ = ring.poll(None);
+                let end = sched::exec_len();
+                // Disarm what was not used.
+                let consumed = match plan[k] {
+                    Intr::No => false,
+                    Intr::AtEnter => simk::with_fd(ring_fd, |s| s.fail_next_enter.take().is_none()).unwrap_or(false),
+                    Intr::WhileBlocked => !signal_due.swap(false, Ordering::SeqCst),
+                };
+                recs.lock().unwrap().push(PollRec { plan: plan[k], consumed, start, end });
                 *returned.lock().unwrap() += 1;
             }
             // Keep the ring alive until the end of the run.
@@ -67,7 +148,25 @@ pub fn one_case(r: &mut Rng, silent: &Arc<Mutex<Option<String>>>, debug: bool) -
     }
     let _ = simk::with(|s| s.take_log());
     let out = sched::run(threads, &prefix);
+    simk::set_block_handler(None);
+    let recs: Vec<PollRec> = recs.lock().unwrap().clone();
+    // The poller segments that made an enter call which failed at once with EINTR: within the
+    // execution-log range of that poll, the poller entry immediately before the poll's second
+    // POLLING_STATE point (set_polling(false) follows the enter; the segment resumed from the last
+    // load before the syscall made the call).
+    let mut intr_at: Vec<usize> = Vec::new();
+    for rec in &recs {
+        if rec.plan != Intr::AtEnter || !rec.consumed {
+            continue;
+        }
+        let mine: Vec<usize> = (rec.start..rec.end.min(out.exec.len())).filter(|&k| out.exec[k].0 == 0).collect();
+        let swaps: Vec<usize> = (0..mine.len()).filter(|&j| out.exec[mine[j]].1 == 8).collect();
+        if swaps.len() >= 2 && swaps[1] > 0 {
+            intr_at.push(mine[swaps[1] - 1]);
+        }
+    }
     if debug {
+        println!("plan {plan:?} recs {recs:?} intr_at {intr_at:?}");
         println!("mode {mode} wakers {n_wakers} wakes {:?} polls {polls}", wakes_each);
         for (t, p) in &out.exec {
             print!("T{t}@{p} ");
@@ -91,13 +190,23 @@ pub fn one_case(r: &mut Rng, silent: &Arc<Mutex<Option<String>>>, debug: bool) -
     let mut oracle: Option<String> = None;
     let mut first_pstate_step = vec![true; n_wakers + 1];
     let _ = &mut first_pstate_step;
+    // Interrupted enters seen in the log: (at the call / while blocked, a wake-up owed at that moment).
+    let mut intr_seen: Vec<(Intr, bool)> = Vec::new();
     for (k, (t, p)) in out.exec.iter().enumerate() {
         if k > 0 {
             events.push_str("; ");
             jsched.push(',');
         }
-        let _ = write!(jsched, "\"T{t}@{p}\"");
+        let interrupted = *t == 0 && (*p == 997 || intr_at.contains(&k));
+        let _ = write!(jsched, "\"T{t}@{p}{}\"", if interrupted { ":EINTR" } else { "" });
         obs.push(*p as i128);
+        if interrupted {
+            // The poller's step with its enter interrupted. For the oracle it is a poller step like
+            // any other (it is neither the head store nor the end-of-poll try_lock).
+            events.push_str("PI");
+            intr_seen.push((if *p == 997 { Intr::WhileBlocked } else { Intr::AtEnter }, owed));
+            continue;
+        }
         if *p == 999 {
             events.push_str("Stuck");
             // Independent oracle: a wake() call was made since the last poll returned, and now the
@@ -154,9 +263,11 @@ pub fn one_case(r: &mut Rng, silent: &Arc<Mutex<Option<String>>>, debug: bool) -
         "{{| wk_mode := {mode_s}; wk_cap := {cap}%N; wk_prefill := {prefill}%N; wk_polls := {polls}%nat; wk_wakes := [{}]; wk_events := [{events}] |}}",
         wk.join("; ")
     );
+    let plan_s: Vec<String> = plan.iter().map(|p| format!("\"{p:?}\"")).collect();
     let json = format!(
-        "{{\"mode\":\"{mode_s}\",\"sq_entries\":{cap},\"queued_before\":{prefill},\"polls\":{polls},\"wakes_per_waker\":{:?},\"schedule\":[{jsched}]}}",
-        wakes_each
+        "{{\"mode\":\"{mode_s}\",\"sq_entries\":{cap},\"queued_before\":{prefill},\"polls\":{polls},\"wakes_per_waker\":{:?},\"enter_interrupted_per_poll\":[{}],\"schedule\":[{jsched}]}}",
+        wakes_each,
+        plan_s.join(",")
     );
     let preemptions = out.trace.iter().filter(|t| t.2).count();
     let blocked_then_woken = out.exec.iter().any(|e| e.1 == 998);
@@ -168,6 +279,21 @@ pub fn one_case(r: &mut Rng, silent: &Arc<Mutex<Option<String>>>, debug: bool) -
         format!("poller_blocked_then_woken:{blocked_then_woken}"),
         format!("ended_blocked_forever:{}", out.stuck),
         format!("message_sent:{}", out.exec.iter().any(|e| e.0 > 0 && e.1 == 5) || (mode == 1 && blocked_then_woken)),
+        format!(
+            "enter_interrupted:{}",
+            match (intr_seen.iter().any(|i| i.0 == Intr::AtEnter), intr_seen.iter().any(|i| i.0 == Intr::WhileBlocked)) {
+                (false, false) if intr_case => "armed_not_used",
+                (false, false) => "no",
+                (true, false) => "at_the_call",
+                (false, true) => "while_blocked",
+                (true, true) => "both",
+            }
+        ),
+        format!(
+            "enter_interrupted_mode_owed:{}",
+            if intr_seen.is_empty() { "-".to_string() } else { format!("{mode_s}/owed={}", intr_seen.iter().any(|i| i.1)) }
+        ),
+        format!("enter_interrupted_count:{}", intr_seen.len()),
     ];
     Case { coq, obs, json, oracle, known: None, tags, nontrivial: preemptions > 0 }
 }
